@@ -31,6 +31,11 @@ class W:
     def __repr__(self):
         return "W%d" % self.i
 
+    def __len__(self):
+        # every other synthetic item is FALSY (an empty container): stack items are filtered by identity with None,
+        # never by truthiness
+        return self.i % 2
+
 
 class World:
     def __init__(self, NF, NW, NL):
